@@ -268,7 +268,11 @@ func (c *otApplyContext) applySubsAlternate(alternates []gID) bool {
 	if altIndex == otMapMaxValue && c.random {
 		// Maybe we can do better than unsafe-to-break all; but since we are
 		// changing random state, it would be hard to track that.  Good 'nough.
-		c.buffer.unsafeToBreak(0, len(c.buffer.Info))
+		// Once for the lookup is enough (and linear) : the glyphs not visited yet keep the flag.
+		if !c.randomFlagged {
+			c.buffer.unsafeToBreak(0, len(c.buffer.Info))
+			c.randomFlagged = true
+		}
 		altIndex = c.randomNumber()%count + 1
 	}
 
